@@ -179,6 +179,9 @@ def run_task(m, task):
     allst = [start] + list(task["imu"]) + [t for _, st in task["meas"] for t in st]
     intidx = bool(task.get("intidx")) and all(float(t).is_integer() for t in allst)     # integer-typed time stamps everywhere
     pva = make_pva(m, int(start) if intidx else start, rng, task.get("vd0", 0.0))
+    if task.get("perm"):
+        # a state whose labels are in another order (attitude before velocity, as loaded from a CSV): everything is addressed by label
+        pva = pva[['lat', 'lon', 'alt', 'roll', 'pitch', 'heading', 'VD', 'VE', 'VN']]
     gm, am = make_models(m, task["models"], rng)
     meas_objs = []
     for sidx, (cls_name, stamps) in enumerate(task["meas"]):
